@@ -7,6 +7,7 @@ from . import common, cmpmodel, layout, panics, simd, hexcodec, c11
 
 ID = "C17"
 CONFIGS = {"quick": ["K0", "K8"], "thorough": ["K0", "K1", "K8", "K11", "K13", "K14a", "K14b", "K14c", "K16"]}
+FIXTURES = {"panic", "taint"}
 META = {
     "explanation": (
         "Static analysis of everything that can cause undefined behaviour or a panic.  Undefined behaviour can only "
